@@ -425,9 +425,9 @@ impl<'a> CompilerState<'a> {
             .pratt
             .map_primary(|primary| -> Result<Expr, Error> {
                 match primary.as_rule() {
-                    Rule::int => Ok(Expr::Integer(parse_int(
-                        primary.into_inner().next().unwrap(),
-                    ))),
+                    Rule::int => Ok(Expr::Integer(
+                        self.parse_int(primary.into_inner().next().unwrap())?,
+                    )),
                     Rule::expr => {
                         let res = self.parse_expr_ex(primary.into_inner())?;
                         let mut lit_strs = literal_strings.lock().unwrap();
@@ -583,9 +583,9 @@ impl<'a> CompilerState<'a> {
             .pratt_init_value
             .map_primary(|primary| -> Result<Expr, Error> {
                 match primary.as_rule() {
-                    Rule::int => Ok(Expr::Integer(parse_int(
-                        primary.into_inner().next().unwrap(),
-                    ))),
+                    Rule::int => Ok(Expr::Integer(
+                        self.parse_int(primary.into_inner().next().unwrap())?,
+                    )),
                     Rule::expr => {
                         let res = self.parse_expr_ex(primary.into_inner())?;
                         let mut lit_strs = literal_strings.lock().unwrap();
@@ -814,7 +814,7 @@ impl<'a> CompilerState<'a> {
                                 case_set = (Vec::<i32>::new(), Vec::<StatementLoc<'a>>::new());
                                 last_was_a_statement = false;
                             }
-                            case_set.0.push(parse_int(i.into_inner().next().unwrap()));
+                            case_set.0.push(self.parse_int(i.into_inner().next().unwrap())?);
                         }
                         Rule::statement => {
                             case_set.1.push(self.compile_statement(i)?);
@@ -911,14 +911,14 @@ impl<'a> CompilerState<'a> {
                 })
             }
             Rule::csleep_statement => {
-                let s = parse_int(
+                let s = self.parse_int(
                     pair.into_inner()
                         .next()
                         .unwrap()
                         .into_inner()
                         .next()
                         .unwrap(),
-                );
+                )?;
                 Ok(StatementLoc {
                     pos,
                     label: None,
@@ -996,7 +996,7 @@ impl<'a> CompilerState<'a> {
         self.calculator
             .map_primary(|primary| -> Result<i32, Error> {
                 match primary.as_rule() {
-                    Rule::int => Ok(parse_int(primary.into_inner().next().unwrap())),
+                    Rule::int => self.parse_int(primary.into_inner().next().unwrap()),
                     Rule::calc_expr => Ok(self.parse_calc(primary.into_inner())?),
                     Rule::calc_sizeof => Ok(self.parse_sizeof(primary.into_inner())?),
                     rule => unreachable!("parse_calc expected atom, found {:?}", rule),
@@ -1355,14 +1355,14 @@ impl<'a> CompilerState<'a> {
                                                     }
                                                     Rule::ptr_offset => {
                                                         let sign = if x.as_str().starts_with("-") { -1 } else { 1 };
-                                                        let offset = parse_int(
+                                                        let offset = self.parse_int(
                                                             x.into_inner()
                                                                 .next()
                                                                 .unwrap()
                                                                 .into_inner()
                                                                 .next()
                                                                 .unwrap(),
-                                                        );
+                                                        )?;
                                                         match pxx.next() {
                                                         Some(x) => match x.as_rule() {
                                                             Rule::ptr_low => {
@@ -1464,7 +1464,7 @@ impl<'a> CompilerState<'a> {
                                                                 },
                                                                 Rule::ptr_offset => {
                                                                     let sign = if x.as_str().starts_with("-") { -1 } else { 1 };
-                                                                    let offset = parse_int(x.into_inner().next().unwrap().into_inner().next().unwrap());
+                                                                    let offset = self.parse_int(x.into_inner().next().unwrap().into_inner().next().unwrap())?;
                                                                     match pxxx.next() {
                                                                         Some(x) => match x.as_rule() {
                                                                             Rule::ptr_low => {
@@ -1530,7 +1530,7 @@ impl<'a> CompilerState<'a> {
                                                             Some(x) => match x.as_rule() {
                                                                 Rule::ptr_offset => {
                                                                     let sign = if x.as_str().starts_with("-") { -1 } else { 1 };
-                                                                    sign * parse_int(x.into_inner().next().unwrap().into_inner().next().unwrap())
+                                                                    sign * self.parse_int(x.into_inner().next().unwrap().into_inner().next().unwrap())?
                                                                 },
                                                                 _ => return Err(self.syntax_error(&format!("Incorrect suffix to reference {}", s), start))
                                                             },
@@ -2241,6 +2241,11 @@ impl<'a> CompilerState<'a> {
         Ok(())
     }
 
+    fn parse_int(&self, p: Pair<Rule>) -> Result<i32, Error> {
+        let start = p.as_span().start();
+        parse_int(p).map_err(|msg| self.syntax_error(&msg, start))
+    }
+
     fn compile_quoted_string(&self, p: Pair<Rule>) -> String {
         let mut v = String::new();
         let it = p.into_inner();
@@ -2253,14 +2258,17 @@ impl<'a> CompilerState<'a> {
     }
 }
 
-fn parse_int(p: Pair<Rule>) -> i32 {
+fn parse_int(p: Pair<Rule>) -> Result<i32, String> {
+    let overflow = |s: &str| format!("Integer constant {} does not fit into 32 bits", s);
     match p.as_rule() {
-        Rule::decimal => p.as_str().parse::<i32>().unwrap(),
-        Rule::hexadecimal => i32::from_str_radix(&p.as_str()[2..], 16).unwrap(),
-        Rule::octal => i32::from_str_radix(p.as_str(), 8).unwrap(),
+        Rule::decimal => p.as_str().parse::<i32>().map_err(|_| overflow(p.as_str())),
+        Rule::hexadecimal => {
+            i32::from_str_radix(&p.as_str()[2..], 16).map_err(|_| overflow(p.as_str()))
+        }
+        Rule::octal => i32::from_str_radix(p.as_str(), 8).map_err(|_| overflow(p.as_str())),
         Rule::quoted_character => {
             let s = compile_quoted_string_ex(p.into_inner().next().unwrap().as_str());
-            s.chars().next().unwrap() as i32
+            Ok(s.chars().next().unwrap() as i32)
         }
         _ => {
             unreachable!()
